@@ -29,6 +29,10 @@ struct V {
     depth: usize,
     cap: u32,
     preset: (u32, u32),
+    /// Ring-buffer mode: a reduced alphabet (peer data of 1, 2, cap bytes polled at once; recv of
+    /// 1, 2, cap bytes; update_credit) that reaches every (start, used) state of the per-connection
+    /// receive ring with every read and write length, including reads and writes that wrap.
+    ring: bool,
 }
 
 #[derive(Clone, Debug)]
@@ -95,10 +99,24 @@ impl TransportVisitor for V {
         let mut peer_rx_pos: u64 = 0;
         let mut tx_seen = dev.tx.borrow().len();
         let send_lens = [0u32, 1, 2, cap];
-        let recv_lens = [1usize, 3, cap as usize];
-        let peer_lens = [1u32, 3, cap];
-        for step in 0..self.depth {
-            let op = choose(16, "vsock operation");
+        let recv_lens = if self.ring { [1usize, 2, cap as usize] } else { [1usize, 3, cap as usize] };
+        let peer_lens = if self.ring { [1u32, 2, cap] } else { [1u32, 3, cap] };
+        let mut forced: Option<usize> = None;
+        let mut budget = self.depth;
+        for step in 0..self.depth * 2 {
+            let op = if let Some(f) = forced.take() {
+                f
+            } else {
+                if budget == 0 {
+                    break;
+                }
+                budget -= 1;
+                if self.ring {
+                    [9usize, 10, 11, 4, 5, 6, 7][choose(7, "vsock operation (ring-buffer alphabet)")]
+                } else {
+                    choose(16, "vsock operation")
+                }
+            };
             let expect_packets: Vec<(u16, Vec<u8>)>;
             match op {
                 0..=3 => {
@@ -220,6 +238,9 @@ impl TransportVisitor for V {
                     p_tx_total = p_tx_total.wrapping_add(len);
                     inbox.push_back(Pending { h, payload });
                     tag("peer:rw");
+                    if self.ring {
+                        forced = Some(8);
+                    }
                     tlog!("step {}: peer sends {} bytes (credit {})", step, len, credit);
                     expect_packets = vec![];
                 }
@@ -316,6 +337,10 @@ impl TransportVisitor for V {
 pub const PRESETS: [(u32, u32); 4] = [(0, 0), (u32::MAX - 1, u32::MAX - 2), (u32::MAX, u32::MAX), (0x7fff_ffff, 0x8000_0000)];
 
 pub fn run(tkind: TKind, depth: usize, cap: u32) {
+    run_mode(tkind, depth, cap, false)
+}
+
+pub fn run_mode(tkind: TKind, depth: usize, cap: u32, ring: bool) {
     hal::reset();
     let feats = [F_VERSION_1, F_VERSION_1 | F_INDIRECT | F_EVENT_IDX];
     let offered = feats[choose(feats.len(), "offered features")];
@@ -323,6 +348,6 @@ pub fn run(tkind: TKind, depth: usize, cap: u32) {
     let mut cfg = vec![0u8; 8];
     cfg.copy_from_slice(&GUEST_CID.to_le_bytes());
     let w = DWorld::new(Kind::Socket, tkind, offered, cfg);
-    w.with_transport(V { depth, cap, preset });
+    w.with_transport(V { depth, cap, preset, ring });
     mmio::set_handler(None);
 }
